@@ -3,7 +3,7 @@
 `sys.monitoring` PY_START events (tool id COVERAGE_ID) with DISABLE after the first hit of every code object,
 restricted to code defined under physt's source directory: cost is one callback per function, not per call.
 The anchors come from properties.jsonl (`anchors.mechanism[].where`, e.g. "src/physt/binnings.py:508-554;
-src/physt/_bin_utils.py:70-116"); a range counts as reached if a function whose `def` line lies inside it
+src/physt/_bin_utils.py:70-116"); a range counts as reached if a function whose body overlaps it
 (+- SLACK lines, to absorb the line shifts of the repair commits) was entered.
 """
 from __future__ import annotations
@@ -36,7 +36,11 @@ def install(physt_dir: str) -> bool:
     def on_start(code, offset):
         fn = code.co_filename
         if fn.startswith(root):
-            _entered.add((os.path.relpath(fn, os.path.dirname(os.path.dirname(root))), code.co_firstlineno, code.co_qualname))
+            try:
+                last = max((l for _, _, l in code.co_lines() if l is not None), default=code.co_firstlineno)
+            except Exception:
+                last = code.co_firstlineno
+            _entered.add((os.path.relpath(fn, os.path.dirname(os.path.dirname(root))), code.co_firstlineno, last))
         return mon.DISABLE
 
     mon.register_callback(tool, mon.events.PY_START, on_start)
@@ -89,14 +93,14 @@ def anchors_of(prop: str) -> List[Tuple[str, str, int, int]]:
 
 def report(prop: str) -> Dict[str, object]:
     anchors = anchors_of(prop)
-    by_file: Dict[str, List[int]] = {}
-    for f, line, _q in _entered:
-        by_file.setdefault(f.replace(os.sep, "/"), []).append(line)
+    by_file: Dict[str, List[Tuple[int, int]]] = {}
+    for f, first, last in _entered:
+        by_file.setdefault(f.replace(os.sep, "/"), []).append((first, last))
     reached = {}
     for name, f, lo, hi in anchors:
         key = f"{f}:{lo}-{hi}"
-        lines = by_file.get(f, [])
-        hits = sorted(l for l in lines if lo - SLACK <= l <= hi + SLACK)
+        spans = by_file.get(f, [])
+        hits = [sp for sp in spans if sp[0] <= hi + SLACK and sp[1] >= lo - SLACK]  # the function's body overlaps the anchored range
         reached[key] = len(hits)
     return {"functions_entered_in_physt": len(_entered), "anchor_ranges": len(anchors), "anchor_ranges_reached": sum(1 for v in reached.values() if v),
             "functions_entered_per_anchor_range": reached}
